@@ -86,7 +86,6 @@ def main(tier, seed):
                 ("-ncr", {"numeric_croots": True})]
     if not quick:
         variants += [("-c2a-tc", {"cond2arithm": True, "transform_categoricals": True}),
-                     ("-nr4", {"numeric_roots": True, "numeric_eps": 1e-4}),
                      ("-cyc-c2a", {"__force_cyclic": True, "cond2arithm": True})]
     return analysis_check("C17", tier, seed, items=items, want=["parsed", "moments", "cont"], variants=variants,
                           builders=[C.b_source, b_moments_flagged], N=5 if quick else 8, timeout=90,
